@@ -279,22 +279,25 @@ Qed.
 (** ** apply *)
 Section ApplyFacts.
   Variable fc : list xresult.
-  Context {D : Type} (mkdiff : str -> str -> D).
+  Context {D : Type} (mkdiff : str -> str -> D) (dempty : D -> bool).
 
-  Lemma xml_apply_guards step original parse :
-    let dry := xml_apply fc mkdiff step true original parse in
-    let real := xml_apply fc mkdiff step false original parse in
+  Lemma xml_apply_guards g step original parse :
+    let dry := xml_apply fc mkdiff dempty g step true original parse in
+    let real := xml_apply fc mkdiff dempty g step false original parse in
     xo_file dry = original /\ xo_ret dry = xo_ret real /\ xo_failed dry = xo_failed real /\ xo_unfixed dry = xo_unfixed real /\
     (xo_ret real = None -> xo_file real = original) /\
     (parse = None -> xo_ret real = None /\ xo_failed real = true /\
                      xo_unfixed real = map (fun f => (f, 0%N)) (xall_findings fc)) /\
     (forall evs, parse = Some evs ->
        xo_failed real = false /\ xo_unfixed real = [] /\
-       (xo_ret real = None <-> snd (run_steps step evs) = []) /\
+       (xo_ret real = None <->
+          snd (run_steps step evs) = [] \/
+          guard_hits dempty g (mkdiff original (universal_newlines (emit_all (fst (run_steps step evs))))) = true) /\
        forall cs, xo_ret real = Some cs ->
                   xcs_changes cs = snd (run_steps step evs) /\
                   xo_file real = universal_newlines (emit_all (fst (run_steps step evs))) /\
-                  xcs_diff cs = mkdiff original (xo_file real)).
+                  xcs_diff cs = mkdiff original (xo_file real) /\
+                  guard_hits dempty g (xcs_diff cs) = false).
   Proof.
     intros dry real. subst dry real. unfold xml_apply. destruct parse as [evs|].
     - destruct (run_steps step evs) as [out changes] eqn:E. destruct changes as [|c cs'].
@@ -302,13 +305,20 @@ Section ApplyFacts.
         split; [reflexivity|]. split; [reflexivity|]. split; [reflexivity|]. split; [reflexivity|].
         split; [reflexivity|]. split; [discriminate|].
         intros evs' H'. inversion H'; subst evs'. rewrite E. cbn [snd fst].
-        split; [reflexivity|]. split; [reflexivity|]. split; [tauto|]. discriminate.
-      + cbn [xo_file xo_ret xo_failed xo_unfixed].
-        split; [reflexivity|]. split; [reflexivity|]. split; [reflexivity|]. split; [reflexivity|].
-        split; [discriminate|]. split; [discriminate|].
-        intros evs' H'. inversion H'; subst evs'. rewrite E. cbn [snd fst].
-        split; [reflexivity|]. split; [reflexivity|]. split; [split; discriminate|].
-        intros cs0 H0. inversion H0; subst cs0. cbn [xcs_changes xcs_diff]. repeat split; reflexivity.
+        split; [reflexivity|]. split; [reflexivity|]. split; [split; [intros _; left; reflexivity | reflexivity]|]. discriminate.
+      + destruct (guard_hits dempty g (mkdiff original (universal_newlines (emit_all out)))) eqn:G.
+        * cbn [xo_file xo_ret xo_failed xo_unfixed].
+          split; [reflexivity|]. split; [reflexivity|]. split; [reflexivity|]. split; [reflexivity|].
+          split; [reflexivity|]. split; [discriminate|].
+          intros evs' H'. inversion H'; subst evs'. rewrite E. cbn [snd fst].
+          split; [reflexivity|]. split; [reflexivity|]. split; [split; [intros _; right; exact G | reflexivity]|]. discriminate.
+        * cbn [xo_file xo_ret xo_failed xo_unfixed].
+          split; [reflexivity|]. split; [reflexivity|]. split; [reflexivity|]. split; [reflexivity|].
+          split; [discriminate|]. split; [discriminate|].
+          intros evs' H'. inversion H'; subst evs'. rewrite E. cbn [snd fst].
+          split; [reflexivity|]. split; [reflexivity|].
+          split; [split; [discriminate | intros [H0|H0]; [discriminate | rewrite G in H0; discriminate]]|].
+          intros cs0 H0. inversion H0; subst cs0. cbn [xcs_changes xcs_diff]. repeat split; try reflexivity. exact G.
     - cbn [xo_file xo_ret xo_failed xo_unfixed].
       split; [reflexivity|]. split; [reflexivity|]. split; [reflexivity|]. split; [reflexivity|].
       split; [reflexivity|]. split; [intros _; repeat split; reflexivity|]. discriminate.
